@@ -8,6 +8,7 @@
   the hasher sees the dependencies the command reads (aliases resolved — the repaired code).
 -/
 import GrogModel.Lemmas.BuildInv
+import GrogModel.DirVal
 set_option linter.unusedSectionVars false
 set_option linter.unusedVariables false
 namespace Grog.C01
@@ -141,6 +142,14 @@ theorem hit_same_state {P : Params κ} (hG : Good P) (cfg : Cfg) (t : Target) (o
     have := hG.inj _ _ hK
     subst this
     exact ⟨r, _, nc, hr, hres, rfl, rfl, rfl, rfl, rfl, rfl, rfl⟩
+
+/-- the hypothesis "restore writes exactly the stored value" refined for directory outputs as sets of entries:
+    removing the destination first makes the restore exact, while a restore that keeps what is there leaves stale
+    entries behind (which a dependant would then read). -/
+theorem dir_restore_exact_and_stale_witness :
+    (∀ (cur : Option DirVal.Tree) (stored : DirVal.Tree), DirVal.restoreDir cur stored = stored) ∧
+    (∃ (cur stored : DirVal.Tree), DirVal.restoreInPlace (some cur) stored ≠ stored) :=
+  ⟨DirVal.restoreDir_exact, by obtain ⟨c, s, h, _⟩ := DirVal.restoreInPlace_keeps_stale; exact ⟨c, s, h⟩⟩
 
 /-- **alias_skipped_witness** (regression, F-alias). If the hasher does not see a dependency the command reads
     (`hdeps` omits it — the unrepaired code skipped in-edges that are aliases) the key is the same for two
